@@ -15,7 +15,7 @@ def regionMem (addr len page : Nat) (kind : String) : TMem :=
       else if p == tailPage then (if kind == "u" then none else if kind == "n" then some false else some true)
       else none,
     byte := fun a =>
-      if a < end_ then UInt8.ofNat ((a * 167 + 13) % 256)
+      if a < end_ then (if (a / 16) % 5 == 3 then 0xff else UInt8.ofNat ((a * 167 + 13) % 256))
       else if kind == "r" then 0x5a else 0 }
 
 /-- several reads of a changing word through one reader: each returns what the target holds at that moment -/
@@ -62,6 +62,7 @@ def run (kv : List (String × String)) : Res := Id.run do
   let model := match strat with
     | "v" => vmemRead m src n
     | "f" => fileRead m src n
+    | "a" => copyFromProcess m src n
     | _ => ptraceRead m src n
   let mres := match model with
     | some bs => s!"ok:{bs.length}"
